@@ -20,6 +20,7 @@ package core
 // panics and would be reported.
 
 import (
+	"strconv"
 	"bytes"
 	"context"
 	"encoding/json"
@@ -124,6 +125,17 @@ func vjIsNumber(b []byte) bool {
 	return ok
 }
 
+// vjIsFloat: digits, optionally followed by a fraction (the number forms the
+// fixtures use).
+func vjIsFloat(b []byte) bool {
+	for i, c := range b {
+		if c == '.' {
+			return i > 0 && vjIsNumber(b[:i]) && vjIsNumber(b[i+1:])
+		}
+	}
+	return vjIsNumber(b)
+}
+
 //verif:stub encoding/json.Unmarshal
 func vjUnmarshal(data []byte, v any) error {
 	data = vjTrim(data)
@@ -144,7 +156,7 @@ func vjUnmarshal(data []byte, v any) error {
 		if isNull {
 			return nil
 		}
-		if !vjIsNumber(data) {
+		if !vjIsFloat(data) {
 			return errors.New("json: cannot unmarshal into float64")
 		}
 		return nil
@@ -268,6 +280,8 @@ func vjMarshal(v any) ([]byte, error) {
 		return []byte("\"" + x + "\""), nil
 	case json.Marshaler:
 		return x.MarshalJSON()
+	case *int64:
+		return strconv.AppendInt(nil, *x, 10), nil
 	}
 	panic(fmt.Sprintf("json model: unsupported Marshal argument %T", v))
 }
@@ -1360,6 +1374,7 @@ stage PRODUCE(
     out S[]      arr,
     out S        one,
     out map<S>[] many,
+    out map<S>[][] grid,
     src comp     "bin",
 )
 
@@ -1368,6 +1383,7 @@ stage CONSUME(
     in  txt[]      y,
     in  txt        z,
     in  map<txt>[] w,
+    in  map<txt>[][] g,
     out int        n,
     src comp       "bin",
 )
@@ -1386,6 +1402,7 @@ pipeline TOP(
         y = PRODUCE.arr.f,
         z = PRODUCE.one.f,
         w = PRODUCE.many.f,
+        g = PRODUCE.grid.f,
     )
 
     return (
@@ -1412,8 +1429,8 @@ func vrProjGraph() *vrReal {
 }
 
 // H_C04_projectedHolds(nkeys): CONSUME is bound to the file member f of
-// PRODUCE's outputs, projected through a typed map, an array, a plain struct
-// and an array of typed maps.  PRODUCE has finished; its _outs holds nkeys
+// PRODUCE's outputs, projected through a typed map, an array, a plain struct,
+// an array and a two-dimensional array of typed maps.  PRODUCE has finished; its _outs holds nkeys
 // entries per map (keys arbitrary lower-case letters — including the letters
 // that are member names of the struct), each with its own file.  The real
 // removeEmptyFileArgs and getArgsToFilesMap run, as they do when the stage
@@ -1455,13 +1472,15 @@ func H_C04_projectedHolds(nkeys int) {
 		"arr":   vrCat([]byte("["), entry(files("arr", 0)), []byte(","), entry(files("arr", 1)), []byte("]")),
 		"one":   entry(files("one", 0)),
 		"many":  vrCat([]byte("["), mapOf("many"), []byte("]")),
+		"grid":  vrCat([]byte("[["), mapOf("grid"), []byte("],[]]")),
 	}
 	want := map[string][]string{
-		"items.f": nil, "arr.f": {files("arr", 0), files("arr", 1)}, "one.f": {files("one", 0)}, "many.f": nil,
+		"items.f": nil, "arr.f": {files("arr", 0), files("arr", 1)}, "one.f": {files("one", 0)}, "many.f": nil, "grid.f": nil,
 	}
 	for i := range keys {
 		want["items.f"] = append(want["items.f"], files("item", i))
 		want["many.f"] = append(want["many.f"], files("many", i))
+		want["grid.f"] = append(want["grid.f"], files("grid", i))
 	}
 	for arg := range want {
 		_, held := f.fileArgs[arg][cons]
@@ -2555,4 +2574,113 @@ func H_C10_resolveErrors() {
 		verifCover("several parameters failed to resolve")
 	}
 	verifAssert(a == b && a == c && a == d, "C10: the error recorded when several parameters fail to resolve does not depend on map iteration order (ghost)")
+}
+
+const vrWholeSrc = `
+struct NARROW(
+    int    a,
+    string b,
+)
+
+struct WIDE(
+    int    a,
+    string b,
+    int    extra,
+)
+
+struct T(
+    NARROW   w,
+    int      n,
+    NARROW[] ws,
+)
+
+stage PRODUCE(
+    out WIDE   w,
+    out int    n,
+    out WIDE[] ws,
+    src comp   "p",
+)
+
+stage CONSUME(
+    in  T    t,
+    in  T[]  ts,
+    out int  r,
+    src comp "c",
+)
+
+pipeline TOP(
+    out T   t,
+    out int r,
+)
+{
+    call PRODUCE()
+
+    call CONSUME(
+        t  = PRODUCE,
+        ts = [PRODUCE],
+    )
+
+    return (
+        t = PRODUCE,
+        r = CONSUME.r,
+    )
+}
+
+call TOP()
+`
+
+func vrWholeGraph() *vrReal {
+	disableUniquification = false
+	return verifCached("vrWholeGraph", func() any {
+		rt := &Runtime{Config: &RuntimeOptions{JobMode: "local", VdrMode: VdrDisable}, mrjob: "/m/mrjob", adaptersPath: "/m/adapters"}
+		_, _, ps, err := rt.instantiatePipeline([]byte(vrWholeSrc), "/m/p.mro", "ps", "/ps", nil, "none", nil, false, true, context.Background())
+		if err != nil {
+			panic("fixture does not instantiate: " + err.Error())
+		}
+		n := func(name string) *Node { return ps.node.top.allNodes["ID.ps.TOP."+name] }
+		return &vrReal{ps, n("PRODUCE"), n("CONSUME"), nil}
+	}).(*vrReal)
+}
+
+// H_C01_wholeCall(form): a call's whole output set is bound to a struct
+// parameter (`t = PRODUCE`, `ts = [PRODUCE]`, `return (t = PRODUCE)`) whose
+// members have the same names as the outputs but narrower types: a struct with
+// fewer fields, and an array of them.  The producer wrote the extra fields; its
+// int output is written as a plain integer (form 0) or as an integral float
+// (form 1: `3.0`, which is a valid int output).
+//
+//	C01: the consumer and the top-level outputs receive the declared members
+//	     only (extra fields dropped at every level), with the producer's values.
+func H_C01_wholeCall(form int) {
+	w := vrWholeGraph()
+	vrOuts = map[*Metadata]LazyArgumentMap{}
+	a, extra, n := vrDigit("a"), vrDigit("extra"), vrDigit("n")
+	wide := vrCat([]byte(`{"a":`), a, []byte(`,"b":"x","extra":`), extra, []byte(`}`))
+	narrow := vrCat([]byte(`{"a":`), a, []byte(`,"b":"x"}`))
+	nOut := n
+	if form == 1 {
+		nOut = vrCat(n, []byte(".0"))
+	}
+	vrOuts[w.gen.forks[0].metadata] = LazyArgumentMap{"w": wide, "n": nOut, "ws": vrCat([]byte("["), wide, []byte("]"))}
+	t := vrCat([]byte(`{"n":`), n, []byte(`,"w":`), narrow, []byte(`,"ws":[`), narrow, []byte(`]}`))
+	_, args, err := w.work.resolveInputs(w.work.forks[0].forkId, false)
+	verifCover("whole call bound to a narrower struct")
+	if form == 1 && verifKnown("C01-whole-call-integral-float") {
+		return
+	}
+	verifAssert(err == nil, "C01: binding a call's whole output to a struct of narrower members resolves")
+	if err != nil {
+		return
+	}
+	want := vrCat([]byte(`{"t":`), t, []byte(`,"ts":[`), t, []byte(`]}`))
+	verifAssert(verifBytesEq(vrEncode(args), want), "C01: a whole call bound to a struct delivers the declared members only, extra fields dropped at every level")
+	r := vrDigit("r")
+	vrOuts[w.work.forks[0].metadata] = LazyArgumentMap{"r": r}
+	outs, _, err := w.ps.node.resolvePipelineOutputs(nil)
+	verifAssert(err == nil && outs != nil, "C01: the pipeline's outputs resolve")
+	if err != nil || outs == nil {
+		return
+	}
+	wantO := vrCat([]byte(`{"r":`), r, []byte(`,"t":`), t, []byte(`}`))
+	verifAssert(verifBytesEq(vrEncode(outs), wantO), "C01: a whole call returned as a struct records the declared members only")
 }
